@@ -14,6 +14,8 @@ use uuid::Uuid;
 
 #[derive(Clone, Copy, Debug, PartialEq, Eq)]
 pub enum Req {
+    /// parent = an id that is no version of anybody (acceptable only as the first parent of an empty client)
+    AddVersionOther,
     AddVersionNil,
     AddVersionLatest,
     AddSnapLatest,
@@ -25,7 +27,8 @@ pub enum Req {
 #[derive(Clone, Debug, PartialEq, Eq)]
 pub enum Class {
     Accepted,
-    Conflict,
+    /// 409 naming this id as the expected parent
+    Conflict(Uuid),
     Ok,
     NotFound,
     Gone,
@@ -34,15 +37,31 @@ pub enum Class {
     Other(u16),
 }
 
+/// the parent used by `AddVersionOther`: request A (over HTTP) and request B (library) name DIFFERENT unrelated ids
+fn other_parent(is_a: bool) -> Uuid {
+    if is_a { Uuid::from_u128(0x0a0a_0a0a_0a0a_4a0a_8a0a_0a0a_0a0a_0a0a) } else { Uuid::from_u128(0x0b0b_0b0b_0b0b_4b0b_8b0b_0b0b_0b0b_0b0b) }
+}
+
+/// a response class with the id named by a conflict replaced by its ROLE in the given before/after states
+fn norm(c: &Class, before: &CState, fin: &CState) -> String {
+    match c {
+        Class::Conflict(n) => {
+            let role = if *n == NIL { "nil" } else if *n == before.latest { "latest-before" } else if before.versions.contains_key(n) { "older-version" } else if fin.versions.contains_key(n) { "version-accepted-by-these-requests" } else { "an id that is no version" };
+            format!("Conflict(names {role})")
+        }
+        other => format!("{other:?}"),
+    }
+}
+
 /// the library-level equivalent of a complete request (what the handler does when nobody interferes)
 fn lib_request(server: &Server, cl: Uuid, r: Req, latest: Uuid, prev: Uuid) -> Class {
     match r {
-        Req::AddVersionNil | Req::AddVersionLatest => {
-            let p = if r == Req::AddVersionNil { NIL_VERSION_ID } else { latest };
+        Req::AddVersionOther | Req::AddVersionNil | Req::AddVersionLatest => {
+            let p = if r == Req::AddVersionNil { NIL_VERSION_ID } else if r == Req::AddVersionOther { other_parent(false) } else { latest };
             loop {
                 match server.add_version(cl, p, b"B".to_vec()) {
                     Ok((AddVersionResult::Ok(_), _)) => return Class::Accepted,
-                    Ok((AddVersionResult::ExpectedParentVersion(_), _)) => return Class::Conflict,
+                    Ok((AddVersionResult::ExpectedParentVersion(l), _)) => return Class::Conflict(l),
                     Err(ServerError::NoSuchClient) => {
                         let mut t = server.txn(cl).unwrap();
                         if t.get_client().unwrap().is_none() {
@@ -81,13 +100,13 @@ fn lib_request(server: &Server, cl: Uuid, r: Req, latest: Uuid, prev: Uuid) -> C
 /// what the model says a request does, as a response class and a new state (ids abstracted by `fresh`)
 fn model_request(c: &CState, r: Req, latest: Uuid, prev: Uuid, fresh: Uuid, tag: &[u8]) -> (Class, CState) {
     match r {
-        Req::AddVersionNil | Req::AddVersionLatest => {
-            let p = if r == Req::AddVersionNil { NIL } else { latest };
+        Req::AddVersionOther | Req::AddVersionNil | Req::AddVersionLatest => {
+            let p = if r == Req::AddVersionNil { NIL } else if r == Req::AddVersionOther { other_parent(tag == b"A") } else { latest };
             let c0 = if c.exists { c.clone() } else { new_client_spec(NIL) };
             if accept(&c0, p) {
                 (Class::Accepted, add_version_spec(&c0, fresh, p, tag))
             } else {
-                (Class::Conflict, c0)
+                (Class::Conflict(c0.latest), c0)
             }
         }
         Req::AddSnapLatest | Req::AddSnapPrev => {
@@ -130,8 +149,8 @@ where
     B: actix_web::body::MessageBody,
 {
     let req = match r {
-        Req::AddVersionNil | Req::AddVersionLatest => {
-            let p = if r == Req::AddVersionNil { NIL_VERSION_ID } else { latest };
+        Req::AddVersionOther | Req::AddVersionNil | Req::AddVersionLatest => {
+            let p = if r == Req::AddVersionNil { NIL_VERSION_ID } else if r == Req::AddVersionOther { other_parent(true) } else { latest };
             test::TestRequest::post().uri(&format!("/v1/client/add-version/{p}")).insert_header(("Content-Type", "application/vnd.taskchampion.history-segment")).set_payload(b"A".to_vec())
         }
         Req::AddSnapLatest | Req::AddSnapPrev => {
@@ -143,13 +162,13 @@ where
     }
     .insert_header(("X-Client-Id", cl.to_string()))
     .to_request();
-    let status = match test::try_call_service(app, req).await {
-        Ok(resp) => resp.status().as_u16(),
-        Err(e) => e.as_response_error().status_code().as_u16(),
+    let (status, named) = match test::try_call_service(app, req).await {
+        Ok(resp) => (resp.status().as_u16(), resp.headers().get("X-Parent-Version-Id").and_then(|v| v.to_str().ok()).and_then(|t| Uuid::parse_str(t).ok())),
+        Err(e) => (e.as_response_error().status_code().as_u16(), None),
     };
     match (r, status) {
-        (Req::AddVersionNil | Req::AddVersionLatest, 200) => Class::Accepted,
-        (Req::AddVersionNil | Req::AddVersionLatest, 409) => Class::Conflict,
+        (Req::AddVersionOther | Req::AddVersionNil | Req::AddVersionLatest, 200) => Class::Accepted,
+        (Req::AddVersionOther | Req::AddVersionNil | Req::AddVersionLatest, 409) => Class::Conflict(named.unwrap_or(Uuid::from_u128(0xdead))),
         (Req::AddSnapLatest | Req::AddSnapPrev, 200) => Class::Ok,
         (Req::GetChild | Req::GetSnap, 200) => Class::Found,
         (_, 404) => Class::NotFound,
@@ -164,7 +183,7 @@ pub fn leg_interleave(thorough: bool) -> Value {
     let mut fired = 0usize;
     let mut violations: Vec<Value> = vec![];
     let mut samples: Vec<Value> = vec![];
-    let reqs = [Req::AddVersionNil, Req::AddVersionLatest, Req::AddSnapLatest, Req::AddSnapPrev, Req::GetChild, Req::GetSnap];
+    let reqs = [Req::AddVersionOther, Req::AddVersionNil, Req::AddVersionLatest, Req::AddSnapLatest, Req::AddSnapPrev, Req::GetChild, Req::GetSnap];
     let chain_lens: &[usize] = if thorough { &[0, 1, 3, 6] } else { &[0, 3] };
     let sys = actix_rt::System::new();
     for backend in ["in-memory", "sqlite", "sqlite-two-instances"] {
@@ -304,9 +323,9 @@ pub fn leg_interleave(thorough: bool) -> Value {
                         };
                         let s1 = fix(s1, ra);
                         let s2 = fix(s2, ra);
-                        let got = (class_a.clone(), class_b.clone(), shape(&fin));
-                        let ab = (a1, b1, shape(&s1));
-                        let ba = (a2, b2, shape(&s2));
+                        let got = (norm(&class_a, &before, &fin), norm(&class_b, &before, &fin), shape(&fin));
+                        let ab = (norm(&a1, &before, &s1), norm(&b1, &before, &s1), shape(&s1));
+                        let ba = (norm(&a2, &before, &s2), norm(&b2, &before, &s2), shape(&s2));
                         let scenario = format!("{backend}: client with {pre_len} versions; A={ra:?} over HTTP, B={rb:?} runs completely just before A's transaction #{n}");
                         if got != ab && got != ba {
                             violations.push(json!({"tags": ["C03", "C01"], "what": format!("no one-at-a-time order explains the outcome: got (A,B,state)={got:?}; order A,B gives {ab:?}; order B,A gives {ba:?}"), "scenario": scenario}));
@@ -321,5 +340,5 @@ pub fn leg_interleave(thorough: bool) -> Value {
     let total_v = violations.len();
     violations.truncate(6);
     json!({"leg": "interleave", "cases": cases, "cases_where_B_actually_interleaved": fired, "violations": violations, "violations_total": total_v, "samples": samples,
-        "bound": format!("3 backends (in-memory, one SQLite instance, two SQLite instances on one directory) x chain lengths {:?} (0 = client never seen) x 6 request kinds for A (HTTP) x 6 for B (library) x B placed before A's transaction #0..{}; B always runs to completion (no partial overlap of B)", chain_lens, if thorough { 3 } else { 2 })})
+        "bound": format!("3 backends (in-memory, one SQLite instance, two SQLite instances on one directory) x chain lengths {:?} (0 = client never seen) x 7 request kinds for A (HTTP) x 7 for B (library) x B placed before A's transaction #0..{}; B always runs to completion (no partial overlap of B)", chain_lens, if thorough { 3 } else { 2 })})
 }
